@@ -453,7 +453,7 @@ class LocalConcurrences:
                                   len(self.series1), len(self.series2),
                                   0, len(self.series1) + 1,
                                   0, len(self.series2) + 1,
-                                  True)  # intersection (the whole matrix)
+                                  False)  # all rows completely
         else:
             wp = self._wp
             # Cells used by earlier matches are marked by negating them (all affinities are >= 0)
